@@ -356,6 +356,9 @@ class World:
                         elif op == "wait":
                             while not w.event(instr[1]).is_set():
                                 await asyncio.sleep(0.001)
+                        elif op == "park":
+                            # suspended on an awaitable that nothing but this very task refers to
+                            await asyncio.Event().wait()
                         elif op in ("shutdown", "stop"):
                             # the blocking call is made from a worker thread on behalf of this coroutine
                             await asyncio.get_running_loop().run_in_executor(None, stop_runtime, op)
@@ -401,6 +404,8 @@ class World:
                         elif op == "wait":
                             while not w.event(instr[1]).is_set():
                                 await trio.sleep(0.001)
+                        elif op == "park":
+                            await trio.Event().wait()
                         elif op in ("shutdown", "stop"):
                             await trio.to_thread.run_sync(stop_runtime, op)
                         elif not sync_instr(instr):
